@@ -1,5 +1,6 @@
 import TracklibVerif.Model.Graph
 import TracklibVerif.Model.GraphPD
+import TracklibVerif.Model.GraphSession
 import TracklibVerif.Drv.Util
 /-! Driver handler for C06 (network shortest distances), weights in `Rat` (exact stream) or `Float`
 (commands prefixed with `f`: weights, cut-offs and results are IEEE-754 bit patterns, the same model definitions instantiated at `Float`).
@@ -13,7 +14,19 @@ A graph is `<n> <edges>`: nodes `0..n-1`, edges `id,src,tgt,w,ori` separated by 
   pairsPD <n> <edges> <cut>            → as `pairs`, computed by the loop with the explicit priority_dict (`runForwardPD`)
   pq <init> <ops>                      → `priority_dict`: `<init>` = `k,p;k,p;…` (constructor argument), `<ops>` = `;`-separated
                                          `s,<key>,<priority>` (`pd[key] = priority`) or `p` (`pop_smallest()`);
-                                         reply: per op, `,`-separated: the popped key / `err` (IndexError), or `len(pd)` after a set -/
+                                         reply: per op, `,`-separated: `<res>@<_heap>` with `<res>` the popped key / `err` (IndexError),
+                                         or `len(pd)` after a set, and `<_heap>` the heap list `p:k~p:k~…` after the op
+  hq <init> <ops>                      → `heapq` on a list of `(priority, key)` tuples: `<init>` = `p:k;p:k;…` (any list), `<ops>` =
+                                         `;`-separated `h` (`heapify`), `u,<p>,<k>` (`heappush`), `o` (`heappop`);
+                                         reply: per op, `,`-separated `<res>@<list>`: `<res>` = popped `p:k` / `err` / `-`
+  sess <n> <ops>                       → one `Network` object, node ids `< n`, `<ops>` = `;`-separated calls
+                                         `n,<v>` addNode · `e,<id>,<src>,<tgt>,<w>,<ori>` addEdge · `r,<s>,<t|_>,<cut>,<0|1>` run_routing_forward
+                                         · `d,<s>,<t>,<cut>,<0|1>` shortest_distance · `l,<s>,<cut>,<0|1>` list form · `a,<cut>,<0|1>`
+                                         all_shortest_distances · `p,<cut>` prepare · `q,<s>,<t>` prepared_shortest_distance ·
+                                         `h,<s>,<t>` has_prepared_shortest_distance · `s,<s>,<cut>` sub_network (TOPOLOGIC) · `v` save_prep + load_prep ·
+                                         `u` (read the caller's output_dict; `<0|1>` = whether that dictionary is passed);
+                                         reply per op (`;`): `ok` / `err` / `f:<poids,…>|<visite,…>` / `v:<d>` / `l:<d,…>` /
+                                         `t:<s>.<v>.<d>,…` / `b:<0|1>` / `s:<node ids>|<edge ids>` -/
 namespace TV.Drv.C06
 open TV.Graph TV.Drv
 
@@ -114,21 +127,101 @@ def kv? (s : String) : Option (Nat × Rat) :=
   | [k, p] => do let k ← k.toNat?; let p ← rat? p; some (k, p)
   | _ => none
 
+def showHeap (h : List (Rat × Nat)) : String := joinWith "~" (h.map (fun t => s!"{showRat t.1}:{t.2}"))
+
 def pqRun (pd : TV.PDict.PD Rat) : List String → Option (List String)
   | [] => some []
   | op :: rest =>
     match splitTok op ',' with
     | ["p"] =>
       match TV.PDict.popSmallest pd with
-      | none => (pqRun pd rest).map ("err" :: ·)
-      | some (k, pd') => (pqRun pd' rest).map (toString k :: ·)
+      | none =>
+        let pd' := TV.PDict.afterFailedPop pd
+        (pqRun pd' rest).map (s!"err@{showHeap pd'.heap}" :: ·)
+      | some (k, pd') => (pqRun pd' rest).map (s!"{k}@{showHeap pd'.heap}" :: ·)
     | ["s", k, p] =>
       match k.toNat?, rat? p with
       | some k, some p =>
         let pd' := TV.PDict.setitem pd k p
-        (pqRun pd' rest).map (toString (TV.PDict.len pd') :: ·)
+        (pqRun pd' rest).map (s!"{TV.PDict.len pd'}@{showHeap pd'.heap}" :: ·)
       | _, _ => none
     | _ => none
+
+def tup? (s : String) : Option (Rat × Nat) :=
+  match splitTok s ':' with
+  | [p, k] => do let p ← rat? p; let k ← k.toNat?; some (p, k)
+  | _ => none
+
+def hqRun (h : List (Rat × Nat)) : List String → Option (List String)
+  | [] => some []
+  | op :: rest =>
+    match splitTok op ',' with
+    | ["h"] =>
+      let h' := TV.Heapq.heapify TV.PDict.tlt h
+      (hqRun h' rest).map (s!"-@{showHeap h'}" :: ·)
+    | ["o"] =>
+      match TV.Heapq.heappop TV.PDict.tlt h with
+      | none => (hqRun h rest).map (s!"err@{showHeap h}" :: ·)
+      | some (m, h') => (hqRun h' rest).map (s!"{showRat m.1}:{m.2}@{showHeap h'}" :: ·)
+    | ["u", p, k] =>
+      match rat? p, k.toNat? with
+      | some p, some k =>
+        let h' := TV.Heapq.heappush TV.PDict.tlt h (p, k)
+        (hqRun h' rest).map (s!"-@{showHeap h'}" :: ·)
+      | _, _ => none
+    | _ => none
+
+/-! one `Network` object, a sequence of calls (`Model/GraphSession.lean`) -/
+
+def showTable (n : Nat) (tb : Table Rat) : String :=
+  joinWith "," ((List.range n).flatMap (fun s => (List.range n).filterMap (fun v =>
+    (tb (s, v)).map (fun d => s!"{s}.{v}.{showRat d}"))))
+
+def showOut (n : Nat) : Out Rat → String
+  | .unit => "ok"
+  | .err => "err"
+  | .flags d vis => s!"f:{showList (showOpt showRat) d}|{showList showBool vis}"
+  | .val d => s!"v:{showOpt showRat d}"
+  | .vals ds => s!"l:{showList (showOpt showRat) ds}"
+  | .table tb => s!"t:{showTable n tb}"
+  | .bool b => s!"b:{showBool b}"
+  | .subnet ns es => s!"s:{showList toString ns}|{showList toString es}"
+
+def flag? (s : String) : Option Bool := if s == "1" then some true else if s == "0" then some false else none
+
+def op? (s : String) : Option (Op Rat) :=
+  match splitTok s ',' with
+  | ["n", v] => v.toNat?.map .addNode
+  | ["e", i, a, b, w, o] => do
+    let i ← i.toNat?; let a ← a.toNat?; let b ← b.toNat?; let w ← rat? w; let o ← o.toInt?
+    some (.addEdge { id := i, src := a, tgt := b, w := w, ori := o })
+  | ["r", a, t, c, u] => do
+    let a ← a.toNat?; let c ← cut? c; let u ← flag? u
+    if t == "_" then some (.route a none c u) else (t.toNat?).map (fun t => .route a (some t) c u)
+  | ["d", a, t, c, u] => do
+    let a ← a.toNat?; let t ← t.toNat?; let c ← cut? c; let u ← flag? u
+    some (.dist a t c u)
+  | ["l", a, c, u] => do
+    let a ← a.toNat?; let c ← cut? c; let u ← flag? u
+    some (.distList a c u)
+  | ["a", c, u] => do let c ← cut? c; let u ← flag? u; some (.all c u)
+  | ["p", c] => (cut? c).map .prepare
+  | ["q", a, t] => do let a ← a.toNat?; let t ← t.toNat?; some (.prepared a t)
+  | ["h", a, t] => do let a ← a.toNat?; let t ← t.toNat?; some (.hasPrepared a t)
+  | ["s", a, c] => do let a ← a.toNat?; let c ← cut? c; some (.sub a c)
+  | ["v"] => some .saveLoad
+  | _ => none
+
+def sessRun (n : Nat) (σ : Sess Rat) : List String → Option (List String)
+  | [] => some []
+  | op :: rest =>
+    if op == "u" then (sessRun n σ rest).map (s!"t:{showTable n σ.udict}" :: ·)
+    else
+      match op? op with
+      | none => none
+      | some o =>
+        let r := exec σ o
+        (sessRun n r.1 rest).map (showOut n r.2 :: ·)
 
 def handle (cmd : String) (args : List String) : String :=
   match cmd, args with
@@ -140,6 +233,20 @@ def handle (cmd : String) (args : List String) : String :=
         | some out => joinWith "," out
         | none => "bad-request"
       else "bad-request"
+    | none => "bad-request"
+  | "hq", [init, ops] =>
+    match (splitTok init ';').mapM tup? with
+    | some items =>
+      match hqRun items (splitTok ops ';') with
+      | some out => joinWith "," out
+      | none => "bad-request"
+    | none => "bad-request"
+  | "sess", [n, ops] =>
+    match n.toNat? with
+    | some n =>
+      match sessRun n (Sess.new n) (splitTok ops ';') with
+      | some out => joinWith ";" out
+      | none => "bad-request"
     | none => "bad-request"
   | _, _ =>
     if cmd.startsWith "f" then handleW fl? showFloat (cmd.drop 1).toString args
